@@ -1386,9 +1386,49 @@ func c17Clamp(p *Prog, r *Report) {
 						})
 					}
 				}
-				if sel, isSel := arg.(*ast.SelectorExpr); isSel {
-					if fv, isF := d.Pkg.TypesInfo.Uses[sel.Sel].(*types.Var); isF && fv.IsField() && fv.Name() == "MaxDirCount" && fv.Pkg() != nil && shortPath(fv.Pkg().Path()) == "config" {
-						ok = true
+				isCfgLimit := func(e ast.Expr) bool {
+					sel, isSel := ast.Unparen(e).(*ast.SelectorExpr)
+					if !isSel {
+						return false
+					}
+					fv, isF := d.Pkg.TypesInfo.Uses[sel.Sel].(*types.Var)
+					return isF && fv.IsField() && fv.Name() == "MaxDirCount" && fv.Pkg() != nil && shortPath(fv.Pkg().Path()) == "config"
+				}
+				if isCfgLimit(arg) {
+					ok = true
+				} else if sel, isSel := arg.(*ast.SelectorExpr); isSel {
+					// a field of the container's own settings, filled from the configuration where the container is
+					// built: settings{maxDirCount: cfg.Storage.MaxDirCount}
+					if fv, isF := d.Pkg.TypesInfo.Uses[sel.Sel].(*types.Var); isF && fv.IsField() {
+						filled, other := false, false
+						for _, file := range d.Pkg.Syntax {
+							ast.Inspect(file, func(y ast.Node) bool {
+								switch z := y.(type) {
+								case *ast.KeyValueExpr:
+									if id, isId := z.Key.(*ast.Ident); isId && d.Pkg.TypesInfo.Uses[id] == fv {
+										if isCfgLimit(z.Value) {
+											filled = true
+										} else {
+											other = true
+										}
+									}
+								case *ast.AssignStmt:
+									for i, l := range z.Lhs {
+										if ls, isLS := ast.Unparen(l).(*ast.SelectorExpr); isLS && d.Pkg.TypesInfo.Uses[ls.Sel] == fv {
+											if len(z.Rhs) == len(z.Lhs) && isCfgLimit(z.Rhs[i]) {
+												filled = true
+											} else {
+												other = true
+											}
+										}
+									}
+								}
+								return true
+							})
+						}
+						if filled && !other {
+							ok = true
+						}
 					}
 				}
 			}
